@@ -24,7 +24,8 @@ META = {
     "assumptions": [
         "granularity: queue operations, thread start, file writes/flushes (what the property names); preemption inside zfpy.compress_numpy or inside a queue operation is not modelled",
         "termination = deadlock-freedom + bounded steps, since all waiting is on queue operations the scheduler models",
-        "reference bytes come from an unscheduled (real threads) run of the same conversion",
+        "reference bytes = the strictly sequential execution (scheduler policy 'downstream first', capacity 1), which must also equal an unscheduled run with real threads",
+        "a wait with a timeout may expire whenever the waiting thread is scheduled while the wait cannot be satisfied (at most 3 expiries per run)",
     ],
 }
 
@@ -55,11 +56,11 @@ def conversion(case, d):
     return (lambda: conv.segy_convert(path, out, rate, bs, header_detection=case.get("mode", "heuristic"))), out
 
 
-def scheduled(case, d, choices):
+def scheduled(case, d, choices, policy="choices"):
     """Run the conversion under the controlled scheduler.  Returns (Sched, write log, output bytes or None, error)."""
     import seismic_zfp.conversion_utils as cu
     import seismic_zfp.conversion as C
-    S = sched.Sched(choices, max_steps=20000)
+    S = sched.Sched(choices, max_steps=20000, policy=policy)
     SThread, SQueue = sched.make_patches(S, capacity=case["cap"])
     log = []
     queues = []
@@ -98,11 +99,22 @@ def scheduled(case, d, choices):
 
 
 def reference(case, d):
+    """The file a strictly sequential execution produces: the same conversion under the scheduler with the
+    'downstream first' policy (every item is compressed and written before the next one is produced), checked
+    against an unscheduled run with real threads."""
     key = repr((case["route"], case["shape"], case["setting"], case.get("mode")))
     if key not in _ref_cache:
+        S, log, data, err, leftover, queues = scheduled(dict(case, cap=1), d, [], policy="downstream")
+        if err is not None or data is None:
+            raise Violation("sequential-execution-fails", f"{case['route']} {case['shape']} {case['setting']}: {err!r}")
+        if max((q.max_len for q in queues), default=0) > 1:
+            raise RuntimeError("harness: the 'downstream first' execution let an item wait behind another")
         thunk, out = conversion(case, d)
         thunk()
-        _ref_cache[key] = conv.read_bytes(out)
+        if conv.read_bytes(out) != data:
+            raise Violation("unscheduled-run-differs-from-sequential",
+                            f"{case['route']} {case['shape']} {case['setting']}: a run with real threads does not produce the sequential file")
+        _ref_cache[key] = data
     return _ref_cache[key]
 
 
@@ -150,9 +162,12 @@ def check_schedule(case, ctx, d, choices):
 
 CONFIGS = {
     "numpy": [([4, 5, 9], [4, (4, 4, 512)]), ([7, 5, 9], [4, (4, 4, 512)]), ([11, 5, 9], [4, (4, 4, 512)]),
-              ([5, 9, 70], [8, (8, 8, 64)]), ([17, 9, 70], [8, (8, 8, 64)]), ([9, 5, 600], [4, (4, 8, 256)])],
+              ([5, 9, 70], [8, (8, 8, 64)]), ([17, 9, 70], [8, (8, 8, 64)]), ([9, 5, 600], [4, (4, 8, 256)]),
+              ([17, 5, 9], [8, (8, 8, 64)]), ([33, 3, 12], [16, (16, 16, 8)])],
     "segy": [([4, 5, 9], [4, (4, 4, 512)]), ([9, 5, 9], [4, (4, 4, 512)]), ([5, 9, 70], [8, (8, 8, 64)]),
-             ([12, 3, 5], [4, (4, 4, 512)])],
+             ([12, 3, 5], [4, (4, 4, 512)]),
+             # one block per plane set (n_xl <= blockshape[1], n_samples <= blockshape[2]) in layouts other than 4x4
+             ([17, 5, 9], [8, (8, 8, 64)]), ([9, 7, 60], [4, (4, 8, 256)]), ([33, 3, 12], [16, (16, 16, 8)])],
     "2d": [([9, 20], [4, (1, 4, 2048)]), ([5, 20], [4, (1, 16, 512)]), ([37, 600], [4, (1, 16, 512)]),
            ([11, 2100], [8, (1, 4, 1024)])],
 }
